@@ -20,6 +20,11 @@ func flavourInit() {
 	glow.GenesisTime = BubbleEpoch
 	glow.SetCurrentTimeslot(0)
 	MaxRunLife = 112 * time.Second
+	// A single operation that has not returned after 30 simulated seconds is
+	// wedged (every deadline of the test build is a few seconds): reported as
+	// <property>.stuck while the run still has life left, instead of running
+	// into the life limit above.
+	MaxTaskWait = 30 * time.Second
 }
 
 // SetSlot moves the protocol clock.
